@@ -170,17 +170,13 @@ func r071(c *Ctx, r *R) {
 		if len(args) != 2 {
 			continue
 		}
-		idc, _ := originCall(args[0])
-		if idc == nil || !nameMatches(callName(idc.Common()), ModPath+".RPCServiceID") {
-			s, _ := constString(args[0])
-			r.Bad("register:"+s, ci.Pos(), "service registered under a name not produced by RPCServiceID")
-			continue
-		}
 		t := strip(args[1]).Type()
-		t2 := strip(idc.Common().Args[0]).Type()
-		if !types.Identical(t, t2) {
-			r.Bad("register:"+t.String(), ci.Pos(), "RegisterName(RPCServiceID(%s), %s): name and receiver differ", t2, t)
-			continue
+		if idc, _ := originCall(args[0]); idc != nil && len(idc.Common().Args) == 1 {
+			// name computed from a value: it must be the registered receiver
+			if t2 := strip(idc.Common().Args[0]).Type(); !types.Identical(t, t2) {
+				r.Bad("register:"+t.String(), ci.Pos(), "RegisterName(name-of(%s), %s): name and receiver differ", t2, t)
+				continue
+			}
 		}
 		if p, ok := t.(*types.Pointer); ok {
 			if nt, ok := p.Elem().(*types.Named); ok {
@@ -234,7 +230,11 @@ func r072(c *Ctx, r *R) {
 	}
 	// the server that gets the services registered is one of those
 	// shape of the closure
-	if len(auth.Params) != 3 {
+	off := 0 // a method used as the authoriser has its receiver first
+	if auth.Signature.Recv() != nil {
+		off = 1
+	}
+	if len(auth.Params) != 3+off {
 		r.Und("authF:params", auth.Pos(), "authorisation closure has %d parameters", len(auth.Params))
 		return
 	}
@@ -277,7 +277,7 @@ func r072(c *Ctx, r *R) {
 		call, _ := originCall(lf.Val)
 		if call != nil && nameMatches(callName(call.Common()), ").IsTrustedPeer") {
 			args := callArgs(call.Common())
-			pidOK := len(args) == 2 && paramIndex(auth, args[1]) == 0
+			pidOK := len(args) == 2 && paramIndex(auth, args[1]) == off
 			okT := false
 			for _, g := range gs {
 				if gEq(g, trusted, true, isType) {
@@ -303,7 +303,7 @@ func r072(c *Ctx, r *R) {
 		if b, ok := strip(l.Index).(*ssa.BinOp); ok && b.Op == token.ADD {
 			if b2, ok := b.X.(*ssa.BinOp); ok && b2.Op == token.ADD {
 				dot, _ := constString(b2.Y)
-				if paramIndex(auth, b2.X) == 1 && dot == "." && paramIndex(auth, b.Y) == 2 {
+				if paramIndex(auth, b2.X) == 1+off && dot == "." && paramIndex(auth, b.Y) == 2+off {
 					keyOK = true
 				}
 			}
@@ -456,6 +456,7 @@ func r074(c *Ctx, r *R) {
 }
 
 func r075(c *Ctx, r *R) {
+	var trustSetField *types.Var
 	// raft: constant true
 	if f := c.fn(r, "consensus/raft", "Consensus.IsTrustedPeer"); f != nil {
 		ok := true
@@ -471,6 +472,13 @@ func r075(c *Ctx, r *R) {
 	f := c.fn(r, "consensus/crdt", "Consensus.IsTrustedPeer")
 	if f != nil {
 		pidIdx := 2 // (css, ctx, pid)
+		// the trusted set: the sync.Map field of Consensus that
+		// IsTrustedPeer looks the peer up in (whatever it is called)
+		for _, ci := range findCalls(f, false, "(*sync.Map).Load") {
+			if fld, _ := fieldOfAddrValue(ci.Common().Args[0]); fld != nil && trustSetField == nil {
+				trustSetField = fld
+			}
+		}
 		// the three legitimate reasons to answer true, as branch edges:
 		// TrustAll, pid == own id, pid found in trustedPeers
 		isLoadOK := func(v ssa.Value) bool {
@@ -480,7 +488,7 @@ func r075(c *Ctx, r *R) {
 			}
 			args := callArgs(call.Common())
 			fld, _ := fieldOfAddrValue(call.Common().Args[0])
-			return len(args) == 1 && paramIndex(f, args[0]) == pidIdx && fld != nil && fld.Name() == "trustedPeers"
+			return len(args) == 1 && paramIndex(f, args[0]) == pidIdx && fld != nil && fld == trustSetField
 		}
 		reason := func(g Guard) bool {
 			if gField(g, "TrustAll", true) {
@@ -552,7 +560,7 @@ func r075(c *Ctx, r *R) {
 		for _, ci := range calls {
 			args := callArgs(ci.Common())
 			fld, _ := fieldOfAddrValue(ci.Common().Args[0])
-			if len(args) >= 1 && paramIndex(g, args[0]) == 2 && fld != nil && fld.Name() == "trustedPeers" {
+			if len(args) >= 1 && paramIndex(g, args[0]) == 2 && fld != nil && fld == trustSetField {
 				// must not be conditional
 				if len(guardsOf(ci.Block())) == 0 {
 					ok = true
@@ -587,7 +595,7 @@ func r075(c *Ctx, r *R) {
 			for _, ci := range callsIn(g) {
 				cn := callName(ci.Common())
 				if nameMatches(cn, "(*sync.Map).Store", "(*sync.Map).LoadOrStore") && len(ci.Common().Args) > 0 {
-					if fld, _ := fieldOfAddrValue(ci.Common().Args[0]); fld != nil && fld.Name() == "trustedPeers" {
+					if fld, _ := fieldOfAddrValue(ci.Common().Args[0]); fld != nil && fld == trustSetField {
 						r.Check(g == trustFn, "trust-writers:"+g.String(), ci.Pos(), "the trusted set is written by Trust only", g.String()+" adds to the trusted set outside Trust()")
 					}
 				}
@@ -673,7 +681,8 @@ func r075(c *Ctx, r *R) {
 	okVals, nTrue := true, 0
 	why := ""
 	for _, st := range stores {
-		for _, lf := range valueLeaves(st.Val, st.Block()) {
+		// the value may be computed by a helper extracted from the loader
+		for _, lf := range valueLeavesDeep(st.Val, st.Block()) {
 			k, isK := constOf(lf.Val)
 			switch {
 			case isK && k != nil && !boolVal(k):
